@@ -72,7 +72,13 @@ pub fn run(ctx: &Ctx, rep: &mut Report) {
         }
         let mut dv = thread_vals.clone();
         dv.dedup();
-        let text = chunks.join(" ");
+        let mut text = String::new();
+        for (ci, c) in chunks.iter().enumerate() {
+            if ci > 0 {
+                text.push_str([" ", " ", "  ", "\t", "\n", " \r\n"][r.usize(6)]);
+            }
+            text.push_str(c);
+        }
         rep.evaluations += 1;
         if non_leading || dv.len() > 1 {
             rep.nontrivial(&text);
